@@ -39,6 +39,15 @@ func NewBitArray(bits int) *BitArray {
 	}
 }
 
+// IsConsistent reports whether Elems has exactly the length that Bits requires.
+// NewBitArray guarantees it; a BitArray decoded from peer bytes need not satisfy it.
+func (bA *BitArray) IsConsistent() bool {
+	if bA == nil {
+		return true
+	}
+	return bA.Bits > 0 && len(bA.Elems) == (bA.Bits+63)/64
+}
+
 func (bA *BitArray) Size() int {
 	if bA == nil {
 		return 0
